@@ -36,6 +36,21 @@ var trFuncs = [][2]string{
 	{"Signature", "equal"}, {"Signature", "similar"}, {"Signature", "merge"}, {"Signature", "less"},
 }
 
+// byte-level helpers of the scanner and of path rebasing (context.go): a second,
+// independent group (its own file, namespace and Env), so that a change there
+// does not touch the obligations of the aggregation properties and vice versa
+var trFuncsScan = [][2]string{
+	{"", "isFramesElidedLine"}, {"", "trimLeftSpace"}, {"", "atou"},
+	{"", "hasPrefix"}, {"", "hasSrcPrefix"}, {"", "isRootedIn"},
+}
+
+func trName(recv, fn string) string {
+	if recv == "" {
+		return fn
+	}
+	return recv + "_" + fn
+}
+
 // Go struct name -> Lean structure; fields are lower-cased on the first letter
 // run unless renamed here.
 var trFieldRename = map[string]string{
@@ -49,6 +64,23 @@ var trEnumConst = map[string]string{
 }
 
 type trFail struct{ msg string }
+
+var leanKeywords = map[string]bool{"prefix": true, "infix": true, "infixl": true, "infixr": true, "postfix": true, "notation": true,
+	"at": true, "end": true, "from": true, "fun": true, "then": true, "let": true, "in": true, "do": true, "have": true, "show": true,
+	"match": true, "with": true, "where": true, "open": true, "def": true, "theorem": true, "namespace": true, "section": true,
+	"variable": true, "instance": true, "structure": true, "class": true, "deriving": true, "mutual": true, "by": true, "macro": true,
+	"syntax": true, "universe": true, "example": true, "abbrev": true, "inductive": true, "using": true, "calc": true, "suffices": true,
+	"obtain": true, "Type": true, "Prop": true, "Sort": true, "local": true, "private": true, "protected": true, "partial": true,
+	"unsafe": true, "extends": true, "attribute": true, "export": true, "nomatch": true, "nofun": true, "set_option": true, "st": true, "E": true}
+
+// lid is the Lean spelling of a Go identifier (escaped where Lean reserves the word;
+// `st` and `E` are names the translation itself uses)
+func lid(n string) string {
+	if leanKeywords[n] {
+		return "«" + n + "»"
+	}
+	return n
+}
 
 func lowerFirst(s string) string {
 	// IsPkgMain -> isPkgMain, ID -> id, IDs -> ids, RemoteSrcPath -> remoteSrcPath
@@ -124,13 +156,29 @@ func (t *translator) leanType(n ast.Node, ty types.Type) string {
 		switch {
 		case x.Info()&types.IsBoolean != 0:
 			return "Bool"
+		case x.Kind() == types.Uint8:
+			return "UInt8"
+		case x.Kind() == types.UntypedNil:
+			return "_"
 		case x.Info()&types.IsInteger != 0:
 			return "Nat"
 		case x.Info()&types.IsString != 0:
 			return "Bytes"
 		}
 	case *types.Slice:
+		if b, ok := x.Elem().(*types.Basic); ok && b.Kind() == types.Uint8 {
+			return "Bytes"
+		}
 		return "(List " + t.leanType(n, x.Elem()) + ")"
+	case *types.Map:
+		// a Go map the code only ranges over / looks keys up in: an association list
+		return "(List (" + t.leanType(n, x.Key()) + " × " + t.leanType(n, x.Elem()) + "))"
+	case *types.Tuple:
+		var ps []string
+		for i := 0; i < x.Len(); i++ {
+			ps = append(ps, t.leanType(n, x.At(i).Type()))
+		}
+		return "(" + strings.Join(ps, " × ") + ")"
 	case *types.Array:
 		return "(List " + t.leanType(n, x.Elem()) + ")"
 	}
@@ -252,8 +300,10 @@ func (t *translator) pureExpr(e ast.Expr) string {
 		switch x.Name {
 		case "true", "false":
 			return x.Name
+		case "nil":
+			return "[]"
 		}
-		return x.Name
+		return lid(x.Name)
 	case *ast.StarExpr:
 		return t.pureExpr(x.X)
 	case *ast.UnaryExpr:
@@ -272,11 +322,17 @@ func (t *translator) pureExpr(e ast.Expr) string {
 	case *ast.BinaryExpr:
 		return t.binop(x, t.pureExpr(x.X), t.pureExpr(x.Y))
 	case *ast.CallExpr:
+		if s, ok := t.builtinCall(x, func(e ast.Expr) string { return t.pureExpr(e) }); ok {
+			return s
+		}
 		if id, ok := x.Fun.(*ast.Ident); ok {
 			switch id.Name {
 			case "len":
 				return "(len " + t.pureExpr(x.Args[0]) + ")"
 			case "int":
+				if b, ok := t.typeOf(x.Args[0]).Underlying().(*types.Basic); ok && b.Kind() == types.Uint8 {
+					return "(" + t.pureExpr(x.Args[0]) + ").toNat"
+				}
 				return t.pureExpr(x.Args[0])
 			case "make":
 				if len(x.Args) == 2 {
@@ -298,11 +354,65 @@ func (t *translator) pureExpr(e ast.Expr) string {
 			t.fail(e, "map lookup")
 		}
 		panic(trImpure{})
+	case *ast.SliceExpr:
+		panic(trImpure{})
 	case *ast.CompositeLit:
 		return t.composite(x, func(e ast.Expr) string { return t.pureExpr(e) })
 	}
 	t.fail(e, "unsupported expression %T", e)
 	return ""
+}
+
+// builtinCall maps the library and package functions the translated code uses
+// to their model counterparts; sub translates an argument.
+func (t *translator) builtinCall(x *ast.CallExpr, sub func(ast.Expr) string) (string, bool) {
+	// conversions []byte("…"), string(x)
+	if _, ok := x.Fun.(*ast.ArrayType); ok && len(x.Args) == 1 {
+		return sub(x.Args[0]), true
+	}
+	if id, ok := x.Fun.(*ast.Ident); ok && id.Name == "string" && len(x.Args) == 1 {
+		if _, isSl := t.typeOf(x.Args[0]).Underlying().(*types.Slice); isSl {
+			return sub(x.Args[0]), true
+		}
+		if b, ok := t.typeOf(x.Args[0]).Underlying().(*types.Basic); ok && b.Info()&types.IsString != 0 {
+			return sub(x.Args[0]), true
+		}
+	}
+	name := ""
+	switch f := x.Fun.(type) {
+	case *ast.SelectorExpr:
+		if pk, ok := f.X.(*ast.Ident); ok {
+			if _, isPkg := t.p.info.Uses[pk].(*types.PkgName); isPkg {
+				name = pk.Name + "." + f.Sel.Name
+			}
+		}
+	case *ast.Ident:
+		name = f.Name
+	}
+	switch name {
+	case "bytes.Equal":
+		return fmt.Sprintf("(%s == %s)", sub(x.Args[0]), sub(x.Args[1])), true
+	case "bytes.HasPrefix", "strings.HasPrefix":
+		return fmt.Sprintf("(Bytes.hasPrefix %s %s)", atom(sub(x.Args[0])), atom(sub(x.Args[1]))), true
+	case "bytes.HasSuffix", "strings.HasSuffix":
+		return fmt.Sprintf("(Bytes.hasSuffix %s %s)", atom(sub(x.Args[0])), atom(sub(x.Args[1]))), true
+	case "isFile":
+		// os.Stat: an oracle of the environment
+		return fmt.Sprintf("(E.isFile %s)", atom(sub(x.Args[0]))), true
+	case "pathJoin":
+		if x.Ellipsis.IsValid() {
+			if len(x.Args) != 1 {
+				t.fail(x, "pathJoin(a, b...)")
+			}
+			return fmt.Sprintf("(pathJoin %s)", atom(sub(x.Args[0]))), true
+		}
+		var as []string
+		for _, a := range x.Args {
+			as = append(as, sub(a))
+		}
+		return fmt.Sprintf("(pathJoin [%s])", strings.Join(as, ", ")), true
+	}
+	return "", false
 }
 
 func (t *translator) composite(x *ast.CompositeLit, sub func(ast.Expr) string) string {
@@ -363,6 +473,8 @@ func (t *translator) binop(x *ast.BinaryExpr, a, b string) string {
 		}
 	case token.SUB:
 		return fmt.Sprintf("(%s - %s)", a, b)
+	case token.MUL:
+		return fmt.Sprintf("(%s * %s)", a, b)
 	}
 	t.fail(x, "unsupported operator %s", x.Op)
 	return ""
@@ -399,7 +511,62 @@ func (t *translator) bind(e ast.Expr, k func(string) string) string {
 				return fmt.Sprintf("(%s[%s]?).bind fun %s =>\n%s%s", base, idx, v, t.ind(), k(v))
 			})
 		})
+	case *ast.SliceExpr:
+		if x.Slice3 {
+			t.fail(x, "3-index slice")
+		}
+		return t.bind(x.X, func(base string) string {
+			lo := func(k func(string) string) string {
+				if x.Low == nil {
+					return k("0")
+				}
+				return t.bind(x.Low, k)
+			}
+			hi := func(k func(string) string) string {
+				if x.High == nil {
+					return k("(len " + base + ")")
+				}
+				return t.bind(x.High, k)
+			}
+			return lo(func(l string) string {
+				return hi(func(h string) string {
+					v := t.fresh()
+					return fmt.Sprintf("(goSlice %s %s %s).bind fun %s =>\n%s%s", atom(base), atom(l), atom(h), v, t.ind(), k(v))
+				})
+			})
+		})
 	case *ast.CallExpr:
+		// library functions with impure arguments: bind the arguments first
+		{
+			var vals = map[ast.Expr]string{}
+			probe := func(e ast.Expr) string { return "_" }
+			if _, ok := t.builtinCall(x, probe); ok {
+				var rec func(i int) string
+				rec = func(i int) string {
+					if i == len(x.Args) {
+						s, _ := t.builtinCall(x, func(e ast.Expr) string { return vals[e] })
+						return k(s)
+					}
+					return t.bind(x.Args[i], func(s string) string { vals[x.Args[i]] = s; return rec(i + 1) })
+				}
+				return rec(0)
+			}
+		}
+		if id, ok := x.Fun.(*ast.Ident); ok && t.funcs[id.Name] {
+			var terms []string
+			var rec func(i int) string
+			rec = func(i int) string {
+				if i == len(x.Args) {
+					v := t.fresh()
+					return fmt.Sprintf("(E.%s %s).bind fun %s =>\n%s%s", id.Name, strings.Join(terms, " "), v, t.ind(), k(v))
+				}
+				return t.bind(x.Args[i], func(s string) string {
+					terms = append(terms, atom(s))
+					return rec(i + 1)
+				})
+			}
+			return rec(0)
+		}
 		if sel, ok := x.Fun.(*ast.SelectorExpr); ok {
 			recvT := structName(t.typeOf(sel.X))
 			name := recvT + "_" + sel.Sel.Name
@@ -425,6 +592,9 @@ func (t *translator) bind(e ast.Expr, k func(string) string) string {
 			return t.bind(x.Args[0], func(v string) string {
 				if id.Name == "len" {
 					return k("(len " + v + ")")
+				}
+				if b, ok := t.typeOf(x.Args[0]).Underlying().(*types.Basic); ok && b.Kind() == types.Uint8 {
+					return k("(" + v + ").toNat")
 				}
 				return k(v)
 			})
@@ -606,7 +776,8 @@ func (t *translator) assigned(n ast.Node, outer []trLocal) []trLocal {
 	})
 	var res []trLocal
 	for _, l := range outer {
-		if set[l.name] && !declared[l.name] {
+		raw := strings.Trim(l.name, "«»")
+		if set[raw] && !declared[raw] {
 			res = append(res, l)
 		}
 	}
@@ -692,11 +863,25 @@ func (t *translator) stmts(list []ast.Stmt, end trEnd) string {
 	case *ast.BlockStmt:
 		return t.stmts(append(append([]ast.Stmt{}, x.List...), rest...), end)
 	case *ast.ReturnStmt:
-		if len(x.Results) != 1 {
-			t.fail(x, "return with %d results", len(x.Results))
+		if len(x.Results) == 0 {
+			t.fail(x, "return without result")
 		}
-		return t.bind(x.Results[0], func(v string) string { return t.wrapRet(v) })
+		var vals []string
+		var rec func(i int) string
+		rec = func(i int) string {
+			if i == len(x.Results) {
+				if len(vals) == 1 {
+					return t.wrapRet(vals[0])
+				}
+				return t.wrapRet("(" + strings.Join(vals, ", ") + ")")
+			}
+			return t.bind(x.Results[i], func(v string) string { vals = append(vals, v); return rec(i + 1) })
+		}
+		return rec(0)
 	case *ast.DeclStmt:
+		if gd, ok := x.Decl.(*ast.GenDecl); ok && gd.Tok == token.CONST {
+			return cont() // uses of a constant are folded by the type checker's constant values
+		}
 		t.fail(x, "declaration statement")
 	case *ast.IncDecStmt:
 		op := token.ADD
@@ -719,9 +904,14 @@ func (t *translator) stmts(list []ast.Stmt, end trEnd) string {
 			}
 			typ := t.leanType(x, t.typeOf(x.Rhs[0]))
 			return t.bind(x.Rhs[0], func(v string) string {
-				t.declare(id.Name, typ)
-				return fmt.Sprintf("let %s : %s := %s\n%s%s", id.Name, typ, v, t.ind(), cont())
+				t.declare(lid(id.Name), typ)
+				return fmt.Sprintf("let %s : %s := %s\n%s%s", lid(id.Name), typ, v, t.ind(), cont())
 			})
+		}
+		if op, ok := map[token.Token]token.Token{token.ADD_ASSIGN: token.ADD, token.SUB_ASSIGN: token.SUB, token.MUL_ASSIGN: token.MUL}[x.Tok]; ok {
+			rhs := &ast.BinaryExpr{X: x.Lhs[0], Op: op, Y: x.Rhs[0]}
+			t.p.info.Types[rhs] = types.TypeAndValue{Type: t.typeOf(x.Lhs[0])}
+			return t.assign(x, x.Lhs[0], rhs, cont)
 		}
 		if x.Tok != token.ASSIGN {
 			t.fail(x, "assignment operator %s", x.Tok)
@@ -729,7 +919,11 @@ func (t *translator) stmts(list []ast.Stmt, end trEnd) string {
 		return t.assign(x, x.Lhs[0], x.Rhs[0], cont)
 	case *ast.IfStmt:
 		if x.Init != nil {
-			t.fail(x, "if with init statement")
+			// if init; cond { … }  ==  { init; if cond { … } }  (the scope of init ends with the if;
+			// nothing after it can refer to what it declares)
+			y := *x
+			y.Init = nil
+			return t.stmts(append([]ast.Stmt{x.Init, &y}, rest...), end)
 		}
 		var el []ast.Stmt
 		switch e := x.Else.(type) {
@@ -891,7 +1085,7 @@ func (t *translator) pureStmts(list []ast.Stmt, result string) string {
 			if !ok || len(x.Lhs) != 1 || x.Tok != token.ASSIGN {
 				panic(trImpure{})
 			}
-			fmt.Fprintf(&sb, "(let %s := %s; ", id.Name, t.pureExpr(x.Rhs[0]))
+			fmt.Fprintf(&sb, "(let %s := %s; ", lid(id.Name), t.pureExpr(x.Rhs[0]))
 		case *ast.IncDecStmt:
 			id, ok := x.X.(*ast.Ident)
 			if !ok {
@@ -901,7 +1095,7 @@ func (t *translator) pureStmts(list []ast.Stmt, result string) string {
 			if x.Tok == token.DEC {
 				op = "-"
 			}
-			fmt.Fprintf(&sb, "(let %s := %s %s 1; ", id.Name, id.Name, op)
+			fmt.Fprintf(&sb, "(let %s := %s %s 1; ", lid(id.Name), lid(id.Name), op)
 		default:
 			panic(trImpure{})
 		}
@@ -942,8 +1136,9 @@ func (t *translator) assign(n ast.Node, lhs, rhs ast.Expr, cont func() string) s
 		t.fail(n, "assignment to an unsupported left-hand side")
 	}
 	isLocal := false
+	rootName := lid(root.Name)
 	for _, l := range t.scope {
-		if l.name == root.Name {
+		if l.name == rootName {
 			isLocal = true
 		}
 	}
@@ -973,8 +1168,8 @@ func (t *translator) assign(n ast.Node, lhs, rhs ast.Expr, cont func() string) s
 				return fmt.Sprintf("(%s[%s]?).bind fun %s =>\n%s%s", cur, idx, old, t.ind(), inner)
 			})
 		}
-		return upd(root.Name, path, func(nv string) string {
-			return fmt.Sprintf("let %s := %s\n%s%s", root.Name, nv, t.ind(), cont())
+		return upd(rootName, path, func(nv string) string {
+			return fmt.Sprintf("let %s := %s\n%s%s", rootName, nv, t.ind(), cont())
 		})
 	})
 }
@@ -991,10 +1186,10 @@ func (t *translator) loop(n ast.Node, rangeX ast.Expr, key, val ast.Expr, body *
 	name := fmt.Sprintf("%s_loop%d", t.fn, t.nloop)
 	keyName, valName := "_i", "_x"
 	if id, ok := key.(*ast.Ident); ok && id.Name != "_" {
-		keyName = id.Name
+		keyName = lid(id.Name)
 	}
 	if id, ok := val.(*ast.Ident); ok && id.Name != "_" {
-		valName = id.Name
+		valName = lid(id.Name)
 	}
 	emit := func(xs string, elemType string) string {
 		// captured: params and the locals that are not loop-carried
@@ -1052,7 +1247,18 @@ func (t *translator) loop(n ast.Node, rangeX ast.Expr, key, val ast.Expr, body *
 		elem = c.Elem()
 	case *types.Array:
 		elem = c.Elem()
+	case *types.Map:
+		// for k := range m: the model's association list, keys in list order.  Sound only where the
+		// result does not depend on the order (an existence test): the tie theorem is stated for every list.
+		if val != nil {
+			t.fail(n, "range over a map with a value variable")
+		}
+		kt := t.leanType(n, c.Key())
+		valName = keyName
+		keyName = "_i"
+		return t.bind(rangeX, func(xs string) string { return emit(fmt.Sprintf("(%s.map Prod.fst)", xs), kt) })
 	default:
+		_ = elem
 		t.fail(n, "range over %s", t.typeOf(rangeX))
 	}
 	et := t.leanType(n, elem)
@@ -1069,19 +1275,27 @@ func (t *translator) indIf(b bool) string {
 // ---------------------------------------------------------------- driver
 
 func (p *pkgInfo) translate() string {
+	return p.translateGroup("PP.Tr", "stack/stack.go, stack/bucket.go", trFuncs, true)
+}
+
+func (p *pkgInfo) translateScan() string {
+	return p.translateGroup("PP.TrS", "stack/context.go", trFuncsScan, false)
+}
+
+func (p *pkgInfo) translateGroup(ns, from string, trFuncs [][2]string, withClosure bool) string {
 	funcs := map[string]bool{}
 	for _, f := range trFuncs {
-		funcs[f[0]+"_"+f[1]] = true
+		funcs[trName(f[0], f[1])] = true
 	}
 	var sb strings.Builder
-	sb.WriteString("/- GENERATED by /verif/extract (translate.go) from stack/stack.go — do not edit. -/\nimport PP.Go.Prelude\nimport PP.Model.Aggregate\nset_option linter.unusedVariables false\nnamespace PP.Tr\nopen PP PP.Go\n\n")
+	fmt.Fprintf(&sb, "/- GENERATED by /verif/extract (translate.go) from %s — do not edit. -/\nimport PP.Go.Prelude\nimport PP.Model.Aggregate\nimport PP.Model.Roots\nset_option linter.unusedVariables false\nnamespace %s\nopen PP PP.Go\n\n", from, ns)
 	type sig struct{ name, typ string }
 	var sigs []sig
 	var bodies []string
 	var failed []string
 	for _, f := range trFuncs {
 		fd := p.funcDecl(f[0], f[1])
-		name := f[0] + "_" + f[1]
+		name := trName(f[0], f[1])
 		if fd == nil {
 			failed = append(failed, fmt.Sprintf("%s.%s: function not found", f[0], f[1]))
 			continue
@@ -1109,17 +1323,30 @@ func (p *pkgInfo) translate() string {
 				for _, fld := range fl.List {
 					ty := t.leanType(fld, t.typeOf(fld.Type))
 					for _, n := range fld.Names {
-						t.params = append(t.params, trLocal{n.Name, ty})
+						t.params = append(t.params, trLocal{lid(n.Name), ty})
 						ptypes = append(ptypes, ty)
 					}
 				}
 			}
 			add(fd.Recv)
 			add(fd.Type.Params)
-			if fd.Type.Results == nil || len(fd.Type.Results.List) != 1 {
-				t.fail(fd, "function must have exactly one result")
+			if fd.Type.Results == nil || len(fd.Type.Results.List) == 0 {
+				t.fail(fd, "function without result")
 			}
-			t.ret = t.leanType(fd, t.typeOf(fd.Type.Results.List[0].Type))
+			var rts []string
+			for _, rf := range fd.Type.Results.List {
+				n := len(rf.Names)
+				if n == 0 {
+					n = 1
+				}
+				for ; n > 0; n-- {
+					rts = append(rts, t.leanType(fd, t.typeOf(rf.Type)))
+				}
+			}
+			t.ret = rts[0]
+			if len(rts) > 1 {
+				t.ret = "(" + strings.Join(rts, " × ") + ")"
+			}
 			body := t.stmts(fd.Body.List, func() string { t.fail(fd, "function can fall off its end"); return "" })
 			var bind []string
 			for _, pr := range t.params {
@@ -1130,13 +1357,16 @@ func (p *pkgInfo) translate() string {
 			for _, d := range t.defs {
 				out.WriteString(d + "\n")
 			}
-			fmt.Fprintf(&out, "/-- %s.%s (stack.go:%d) -/\ndef %s (E : Env) %s : Option %s :=\n  %s\n", f[0], f[1], pos.Line, name, strings.Join(bind, " "), t.ret, body)
+			fmt.Fprintf(&out, "/-- %s.%s (%s:%d) -/\ndef %s (E : Env) %s : Option %s :=\n  %s\n", f[0], f[1], pos.Filename[strings.LastIndex(pos.Filename, "/")+1:], pos.Line, name, strings.Join(bind, " "), t.ret, body)
 			sigs = append(sigs, sig{name, strings.Join(append(ptypes, "Option "+t.ret), " → ")})
 			bodies = append(bodies, out.String())
 		}()
 	}
 	// the comparison closure Aggregate passes to sort.SliceStable
 	func() {
+		if !withClosure {
+			return
+		}
 		name := "Aggregate_sortLess"
 		fd := p.funcDecl("Snapshot", "Aggregate")
 		if fd == nil {
@@ -1205,10 +1435,13 @@ func (p *pkgInfo) translate() string {
 		sort.Strings(failed)
 		// a declaration that cannot be checked, naming what was not translated
 		fmt.Fprintf(&sb, "/-- The translator could not handle the current source. -/\ntheorem translation_failed : %s = \"\" := rfl\n", leanStr(strings.Join(failed, "; ")))
-		sb.WriteString("\nend PP.Tr\n")
+		fmt.Fprintf(&sb, "\nend %s\n", ns)
 		return sb.String()
 	}
-	sb.WriteString("/-- the translated functions, as callees -/\nstructure Env where\n")
+	sb.WriteString("/-- the translated functions, as callees, and the oracles of the environment -/\nstructure Env where\n")
+	if !withClosure {
+		sb.WriteString("  isFile : Bytes → Bool\n")
+	}
 	for _, s := range sigs {
 		fmt.Fprintf(&sb, "  %s : %s\n", s.name, s.typ)
 	}
@@ -1216,6 +1449,6 @@ func (p *pkgInfo) translate() string {
 	for _, b := range bodies {
 		sb.WriteString(b + "\n")
 	}
-	sb.WriteString("end PP.Tr\n")
+	fmt.Fprintf(&sb, "end %s\n", ns)
 	return sb.String()
 }
